@@ -134,6 +134,42 @@ def rescans(R, rng, tier):
                                      "input": {"versions_scanned_before": versions[:n], "current": src}, "observed": code, "signature": None})
 
 
+def fresh_vs_history(R, rng, tier):
+    """What a file yields in a process that has already scanned other files is what a fresh process yields for it alone
+    (comment texts, names and literals shared between the files on purpose)."""
+    d = os.path.join(impl.scratch(), "c08h")
+    os.makedirs(d, exist_ok=True)
+    corpus = {
+        "helper.py": "import subprocess\nsubprocess.Popen('ls -l',  # nosec B602\n                 shell=True)  # nosec B607\nassert x  # nosec B101, B602\n",
+        "service.py": "import subprocess\nsubprocess.Popen('ls -l', shell=True)  # nosec B602\nsubprocess.call('ls *', shell=True)  # nosec B607\nassert y  # nosec B101, B602\n",
+        "third.py": "import subprocess, pickle\nsubprocess.Popen('ps', shell=True)  # nosec B607\npickle.loads(z)  # nosec B602\n",
+    }
+    fresh = {}
+    for fn, src in corpus.items():
+        open(os.path.join(d, fn), "w").write(src)
+        env = dict(os.environ, PYTHONPATH=core.REPO, PYTHONHASHSEED="0")
+        p = subprocess.run([core.PY, "-m", "bandit", "-q", "-f", "json", fn], cwd=d, env=env, capture_output=True)
+        try:
+            j = json.loads(p.stdout.decode())
+            fresh[fn] = (sorted((x["test_id"], x["line_number"]) for x in j["results"]),
+                         j["metrics"]["_totals"]["nosec"], j["metrics"]["_totals"]["skipped_tests"])
+        except Exception:
+            R.violations.append({"what": "no JSON report from a fresh process for %s" % fn, "input": src, "observed": p.stderr.decode()[-300:], "signature": None})
+            return
+    for order in (["helper.py", "service.py", "third.py"], ["third.py", "helper.py", "service.py"], ["service.py", "third.py", "helper.py"]):
+        for fn in order:
+            m = impl.make_manager()
+            m.files_list = [os.path.join(d, fn)]
+            m.run_tests()
+            blk = m.metrics.data["_totals"]
+            got = (sorted((i.test_id, i.lineno) for i in m.results), blk["nosec"], blk["skipped_tests"])
+            R.case(("fresh-vs-history", tuple(order), fn), nontrivial=True, sample={"order": order, "file": fn, "findings": got[0]})
+            R.count("fresh-vs-history")
+            if got != fresh[fn]:
+                R.violations.append({"what": "%s scanned after %s in one process differs from a fresh process scanning it alone" % (fn, order[:order.index(fn)] or "nothing (but after earlier rounds)"),
+                                     "input": {"files": corpus, "order": order}, "observed": {"in_process": got, "fresh": fresh[fn]}, "signature": None})
+
+
 def file_sets(R, rng, tier):
     ex = sorted(glob.glob(os.path.join(core.REPO, "examples", "*.py")))
     n = 12 if tier == "quick" else 120
@@ -224,6 +260,7 @@ def run(R, replay=None):
               "compared byte for byte apart from the timestamp; non-trivial = histories with at least two different scanners, all others")
     history(R, rng, R.tier)
     rescans(R, rng, R.tier)
+    fresh_vs_history(R, rng, R.tier)
     file_sets(R, rng, R.tier)
     seeds(R, rng, R.tier)
     R.disagreements_checked = R.evaluations
